@@ -4,7 +4,7 @@ from lib.verif import *
 THEOREMS = [
     "C18_cap", "C18_monotone", "C18_reaches_ceiling", "C18_floor",
     "C18_budget", "C18_published_trace_ok", "C18_start_above_end_refuted",
-    "C18_float_scalings_monotone",
+    "C18_float_scalings_monotone", "C18_topup",
 ]
 MODULE = "LV.Sweep.Props"
 TARGETS = ["theories/Sweep/Props.vo", "theories/Sweep/Exec.vo", "theories/Sweep/Examples.vo"]
@@ -74,6 +74,12 @@ def case_term(c):
             ins_term(c["ins"]), z(c["weight"]), z(c["rate"]), z(c["floor"]), z(c["budget"]),
             z(v), z(c["err"]), b(has), z(c.get("fee", 0)),
             otx(c["tx"]) if has else "(mkO [] [])")
+    if k == "set":
+        def bl(l):
+            return "[" + "; ".join("mkB %s %s %s" % (z(i["v"]), z(i["b"]), b(i["r"])) for i in l) + "]"
+        return "CSet %s %s %s %s %s %s %s" % (
+            bl(c["ins"]), zl(sorted(c["utxos"] or [])), b(c["need0"]), z(c["err"]),
+            bl(c["after"]), b(c["need1"]), z(c["budget"]))
     if k == "pub":
         e0 = c["events"][0]
         published = e0.get("event") == "Published"
@@ -194,6 +200,29 @@ def pred_tx(c):
     return fails
 
 
+def pred_set(c):
+    """BudgetInputSet: the requested inputs stay (as a prefix), wallet top-ups
+    carry no budget, Budget() is the sum of the input budgets, and when the set
+    no longer needs wallet inputs its budget is covered by spendable value."""
+    fails = []
+    ins, after = c["ins"], c["after"]
+    if after[:len(ins)] != ins:
+        fails.append("requested inputs not kept: %s -> %s" % (ins, after))
+    for a in after[len(ins):]:
+        if a["b"] != 0 or a["r"]:
+            fails.append("wallet input with budget/required output: %s" % a)
+    if c["budget"] != sum(i["b"] for i in ins):
+        fails.append("Budget() %d != sum of input budgets %d" % (c["budget"], sum(i["b"] for i in ins)))
+    if not c["need1"]:
+        sp = sum(a["v"] for a in after if not a["r"])
+        if sp < c["budget"]:
+            fails.append("no wallet input needed but spendable %d < budget %d" % (sp, c["budget"]))
+    added = sorted(a["v"] for a in after[len(ins):])
+    if added != sorted(c["utxos"] or [])[:len(added)]:
+        fails.append("wallet utxos not taken smallest-first: %s of %s" % (added, c["utxos"]))
+    return fails
+
+
 def pred_pub(c):
     """Returns (fails, finding_kind)."""
     fails = []
@@ -243,9 +272,20 @@ def run(ctx):
         "dust limit (real DustLimitForSize) are inputs of the model: theorems hold for any values",
         "TxPublisher goroutines/records bookkeeping are exercised by the harness, not modelled"])
     cases_env = {}
+    replay_case = None
+    if ctx.replay:
+        # re-run exactly the recorded case on the current tree: cases are a
+        # function of (seed, tier, case index)
+        rp = json.load(open(ctx.replay))
+        replay_case = rp.get("detail", {}).get("case", {}).get("case")
+        cases_env = {"VERIF_SEED": rp.get("seed", ctx.seed), "VERIF_TIER": rp.get("tier", ctx.tier)}
+        ctx.note("replaying case %s of seed %s tier %s" % (replay_case, cases_env["VERIF_SEED"],
+                                                            cases_env["VERIF_TIER"]))
     rc, trace, out = run_harness(ctx.uid(), "sweep", ["sweep/verif_fee_test.go"],
                                  "^TestVerifFee$", env=cases_env, timeout=1500)
     rows = read_jsonl(trace)
+    if replay_case is not None:
+        rows = [c for c in rows if c.get("case") == replay_case]
     if rc != 0 or not rows:
         ctx.violation("harness_failed", "TestVerifFee", {"log": out[-4000:]},
                       signature="harness", failing_input=False)
@@ -271,6 +311,9 @@ def run(ctx):
         elif k == "pub":
             fails, finding = pred_pub(c)
             thm = "C18_published_trace_ok"
+        elif k == "set":
+            fails = pred_set(c)
+            thm = "C18_topup"
         else:
             fails = []
         if not fails:
@@ -312,7 +355,7 @@ def run(ctx):
         ctx.coqchk(["LV.Sweep.Props"])
 
     # ---- coverage ----
-    kinds, ff_init, ops, txerr, pubev, conf_hist = {}, {}, {}, {}, {}, {}
+    kinds, ff_init, ops, txerr, pubev, conf_hist, sets = {}, {}, {}, {}, {}, {}, {}
 
     def bump(d, k):
         d[k] = d.get(k, 0) + 1
@@ -339,12 +382,17 @@ def run(ctx):
             for e in c["events"]:
                 bump(pubev, e.get("event") or "none")
             nobs += len(c["events"])
+        elif c["kind"] == "set":
+            bump(sets, "no-need" if not c["need0"] else
+                 "err%d" % c["err"] if c["err"] else
+                 "satisfied+%d" % (len(c["after"]) - len(c["ins"])) if not c["need1"] else "exhausted")
+            nobs += 1
         else:
             nobs += 1
     nontriv = [c for c in rows if (c["kind"] == "ff" and c["init"]["err"] == 0 and len(c["ops"]) > 2)
                or (c["kind"] == "pub" and len(c["events"]) > 2)
                or (c["kind"] == "tx" and c["err"] in (0, 7))
-               or (c["kind"] == "rate")]
+               or (c["kind"] == "rate") or (c["kind"] == "set" and c["need0"])]
     ctx.cov.update({
         "evaluations": len(rows),
         "observations_compared": nobs,
@@ -354,7 +402,7 @@ def run(ctx):
                 "tx case reaching the budget guard | direct feeRateAtPosition grid; distinct by full row",
         "traces_validated_against_impl": len(rows),
         "case_kinds": kinds, "ff_init": ff_init, "ff_ops": ops, "ff_conf_classes": conf_hist,
-        "tx_results": txerr, "publisher_events": pubev,
+        "tx_results": txerr, "publisher_events": pubev, "input_set_topups": sets,
         "predicate_failures": len(pred_fail_idx),
         "finding_class_cases": nfinding,
         "correspondence_mismatches": len(bad),
